@@ -6,6 +6,7 @@ package sim
 
 import (
 	"bytes"
+	"crypto/sha256"
 	"encoding/hex"
 	"fmt"
 	"math/big"
@@ -976,19 +977,26 @@ func (c *bctx) take(sel int) (cand, bool) {
 func (c *bctx) outScript(o OutSpec) []byte {
 	b := c.s.B
 	n := int64(mod(o.N, 1000) + 17)
-	if c.s.Signed {
-		switch mod(o.Fam, 13) {
-		case 9:
-			return b.P2PKH(mod(o.N, 6))
-		case 10:
-			return b.P2WPKH(mod(o.N, 6))
-		case 11:
-			return b.P2SHP2WPKH(mod(o.N, 6))
-		case 12:
-			return b.P2TR(mod(o.N, 6))
+	fam := mod(o.Fam, 18)
+	if fam >= 14 {
+		if !c.s.Signed {
+			fam = mod(o.Fam, 9)
+		} else {
+			switch fam {
+			case 14:
+				return b.P2PKH(mod(o.N, 6))
+			case 15:
+				return b.P2WPKH(mod(o.N, 6))
+			case 16:
+				return b.P2SHP2WPKH(mod(o.N, 6))
+			default:
+				return b.P2TR(mod(o.N, 6))
+			}
 		}
 	}
-	switch mod(o.Fam, 12) {
+	switch fam {
+	case 12, 13:
+		return b.Unspendable(lookalike(o.N, 0))
 	case 9:
 		return b.WrapP2SH(b.WrapP2WSH(b.True()))
 	case 10:
@@ -1014,6 +1022,55 @@ func (c *bctx) outScript(o OutSpec) []byte {
 	default:
 		return b.WrapP2SH(b.SigOps(mod(o.N, 15)))
 	}
+}
+
+// lookalike gives an output script that is, or merely resembles, one of the standard address forms - with a hash /
+// program nobody has a key for.  Nothing here is ever spent; it is there for whatever looks at output scripts by
+// shape (record compression, the per-address index).
+func lookalike(n int, salt uint64) []byte {
+	h := sha256.Sum256([]byte{byte(n), byte(n >> 8), byte(n >> 16), byte(salt), byte(salt >> 8), 0x1a})
+	h2 := sha256.Sum256(h[:])
+	d := append(append([]byte{}, h[:]...), h2[:]...) // 64 pseudo-random bytes
+	cat := func(parts ...[]byte) (r []byte) {
+		for _, p := range parts {
+			r = append(r, p...)
+		}
+		return
+	}
+	variants := [][]byte{
+		cat([]byte{0x76, 0xa9, 0x14}, d[:20], []byte{0x88, 0xac}), // the real forms, foreign hashes
+		cat([]byte{0xa9, 0x14}, d[:20], []byte{0x87}),
+		cat([]byte{0x00, 0x14}, d[:20]),
+		cat([]byte{0x00, 0x20}, d[:32]),
+		cat([]byte{0x51, 0x20}, d[:32]),
+		cat([]byte{0x76, 0xa9, 0x13}, d[:20], []byte{0x88, 0xac}), // 25 bytes, wrong push opcode
+		cat([]byte{0x76, 0xa9, 0x15}, d[:20], []byte{0x88, 0xac}),
+		cat([]byte{0x76, 0xa9, 0x4c}, d[:20], []byte{0x88, 0xac}),
+		cat([]byte{0x76, 0xa9, 0x14}, d[:20], []byte{0x88, 0xad}), // wrong last / first opcodes
+		cat([]byte{0x76, 0xa9, 0x14}, d[:20], []byte{0x87, 0xac}),
+		cat([]byte{0x76, 0xaa, 0x14}, d[:20], []byte{0x88, 0xac}),
+		cat([]byte{0x75, 0xa9, 0x14}, d[:20], []byte{0x88, 0xac}),
+		cat([]byte{0xa9, 0x13}, d[:20], []byte{0x87}), // 23 bytes
+		cat([]byte{0xa9, 0x14}, d[:20], []byte{0x88}),
+		cat([]byte{0xaa, 0x14}, d[:20], []byte{0x87}),
+		cat([]byte{0x00, 0x13}, d[:19], []byte{0x51}), // 22 bytes, not a witness program
+		cat([]byte{0x00, 0x1f}, d[:31], []byte{0x51}), // 34 bytes, not a witness program
+		cat([]byte{0x00, 0x1f}, d[:31], []byte{0x00}),
+		cat([]byte{0x51, 0x1f}, d[:31], []byte{0x51}),
+		cat([]byte{0x52, 0x20}, d[:32]), // other witness versions: programs, but no address of version 0 / 1
+		cat([]byte{0x60, 0x20}, d[:32]),
+		cat([]byte{0x52, 0x14}, d[:20]),
+		cat([]byte{0x51, 0x14}, d[:20]),               // version 1 with a 20-byte program
+		cat([]byte{0x00, 0x21}, d[:33]),               // version 0 with a 33-byte program
+		cat([]byte{0x4f, 0x20}, d[:32]),               // OP_1NEGATE instead of a version
+		cat([]byte{0x21, 0x02}, d[:32], []byte{0xac}), // pay-to-public-key shapes (the x need not be on the curve)
+		cat([]byte{0x21, 0x03}, d[:32], []byte{0xac}),
+		cat([]byte{0x21, 0x05}, d[:32], []byte{0xac}),
+		cat([]byte{0x41, 0x04}, d[:64], []byte{0xac}),
+		cat([]byte{0x41, 0x06}, d[:64], []byte{0xac}),
+		cat([]byte{0x21, 0x02}, d[:32], []byte{0xad}),
+	}
+	return variants[mod(n/7, len(variants))]
 }
 
 // addTx builds one transaction from a spec; validLast=false makes one input's script fail (the input at
